@@ -216,10 +216,39 @@ Inv_C36(s) == s.daoOwner # "" /\ \A k \in DOMAIN s.acl : s.acl[k] # ""
 Inv_C37(s, h) == /\ G!Inv_C37_Canonical(s) /\ G!Inv_ProbeMatchesMap(s) /\ G!Inv_C37_ActiveFromHeight(s)
                  /\ s.active = ActiveSet(s, h)
 
+\* The parameters governance stores are the parameters the modules use: the typed configuration (read
+\* through each module's keeper) agrees with the raw stored values, for the plain integer parameters.
+\* ParamUsers = <<raw key, section, field, property whose statement reads the parameter>>
+ParamUsers == << <<"pos/MaxValidators", "nodeParams", "MaxValidators", "C22">>,
+                 <<"pos/StakeMinimum", "nodeParams", "StakeMinimum", "C25">>,
+                 <<"pos/BlocksPerSession", "nodeParams", "SessionBlockFrequency", "C24">>,
+                 <<"pos/MaxJailedBlocks", "nodeParams", "MaxJailedBlocks", "C24">>,
+                 <<"pos/MaximumChains", "nodeParams", "MaximumChains", "C36">>,
+                 <<"pos/RelaysToTokensMultiplier", "nodeParams", "RelaysToTokensMultiplier", "C36">>,
+                 <<"pos/DAOAllocation", "nodeParams", "DAOAllocation", "C36">>,
+                 <<"pos/ProposerPercentage", "nodeParams", "ProposerAllocation", "C36">>,
+                 <<"pos/ServicerStakeFloorMultiplier", "nodeParams", "ServicerStakeFloorMultiplier", "C36">>,
+                 <<"pos/ServicerStakeWeightCeiling", "nodeParams", "ServicerStakeWeightCeiling", "C36">>,
+                 <<"application/MaxApplications", "appParams", "MaxApplications", "C28">>,
+                 <<"application/ApplicationStakeMinimum", "appParams", "AppStakeMin", "C28">>,
+                 <<"application/MaximumChains", "appParams", "MaxChains", "C28">>,
+                 <<"application/BaseRelaysPerPOKT", "appParams", "BaseRelaysPerPOKT", "C28">>,
+                 <<"pocketcore/ClaimExpiration", "pcParams", "ClaimExpiration", "C32">>,
+                 <<"pocketcore/ClaimSubmissionWindow", "pcParams", "ClaimSubmissionWindow", "C32">>,
+                 <<"pocketcore/SessionNodeCount", "pcParams", "SessionNodeCount", "C32">>,
+                 <<"pocketcore/MinimumNumberOfProofs", "pcParams", "MinimumNumberOfProofs", "C32">>,
+                 <<"pocketcore/ReplayAttackBurnMultiplier", "pcParams", "ReplayAttackBurnMultiplier", "C25">> >>
+QuotedInt(n) == "\"" \o ToString(n) \o "\""
+ParamCoherent(s, c, u) ==
+    (u[1] \in DOMAIN s.params /\ c[u[2]][u[3]] # BigBin) => s.params[u[1]] = QuotedInt(c[u[2]][u[3]])
+\* properties whose parameters the modules see differently from what governance stored
+IncoherentParams(s, c) == {ParamUsers[i][4] : i \in {j \in 1..Len(ParamUsers) : ~ParamCoherent(s, c, ParamUsers[j])}}
+Inv_ParamsCoherent(s, c) == IncoherentParams(s, c) = {}
+
 Inv_All(s, c, h, t, donN, donA, relStable) ==
     /\ Inv_C17(s) /\ Inv_C18(s) /\ Inv_C19(s, donN) /\ Inv_C20(s, donA) /\ Inv_C21(s) /\ Inv_C22(s, c)
     /\ Inv_C25(s) /\ Inv_AppIndex(s) /\ Inv_C28(s, c, relStable) /\ Inv_C24(s, t) /\ Inv_Claims(s, h)
-    /\ Inv_C36(s) /\ Inv_C37(s, h)
+    /\ Inv_C36(s) /\ Inv_C37(s, h) /\ Inv_ParamsCoherent(s, c)
 
 -----------------------------------------------------------------------------
 \* C24 at EndBlock for the whole application: exactly the due nodes and the due applications
